@@ -21,7 +21,8 @@ AbsView == <<cfg, A, B, last, nops>>
 
 NoCfg == [name |-> "none"]
 Scalar(z) == [shape |-> <<1, 1>>, vals |-> <<z>>]
-Lat(L, bc, mps, t, cells) == [name |-> "Chain", Lx |-> L, Ly |-> 1, bcx |-> bc, bcy |-> "open", mps |-> mps, uc |-> <<t>>, cells |-> cells]
+Lat(L, bc, mps, t, cells) == [name |-> "Chain", Lx |-> L, Ly |-> 1, bcx |-> bc, bcy |-> "open", mps |-> mps, uc |-> <<t>>, cells |-> cells,
+                              shift |-> 0]
 ConfigsQuick == {Lat(4, "open", "finite", "spin", 1), Lat(3, "open", "finite", "fermion", 1),
                  Lat(2, "periodic", "infinite", "spin", 2), Lat(1, "periodic", "infinite", "spin", 4)}
 ConfigsOne == {Lat(3, "open", "finite", "fermion", 1)}
@@ -105,8 +106,6 @@ SetToSeq(S) == IF S = {} THEN <<>> ELSE LET x == CHOOSE y \in S : TRUE IN <<x>> 
 UICoeff(c, terms, k) ==
     LET subs == SetToSeq({S \in SUBSET (1..Len(terms)) : Cardinality(S) = k /\ Disjoint(S, terms)})
     IN DenseOfTerms(TypesOf(c), [n \in 1..Len(subs) |-> ProdTerm(subs[n], terms)])
-RECURSIVE GPow(_, _)
-GPow(z, n) == IF n = 0 THEN GOne ELSE GMul(z, GPow(z, n - 1))
 RECURSIVE UISum(_, _, _, _)
 UISum(c, terms, dt, k) == IF k < 0 THEN MZero(D(c), D(c))
                           ELSE EvalMat(MAdd(UISum(c, terms, dt, k - 1), EvalMat(MScale(GPow(dt, k), UICoeff(c, terms, k)))))
